@@ -39,10 +39,36 @@ def _rhs(nrules, depth):
 
 
 @st.composite
+def _confusable(draw, nrules):
+    """A rule whose branches reach states with equal label sets and equal successor sets but a different pairing, e.g.
+    'x' (A c | B d) | 'y' (A d | B c): a state-merging step that compares labels and targets separately conflates them."""
+    sym = st.one_of(st.sampled_from(TOKENS), st.sampled_from(STRINGS)).map(lambda s_: ('sym', s_))
+    k = draw(st.integers(2, 3))
+    heads = [draw(sym) for _ in range(k)]
+    tails = [draw(sym) for _ in range(k)]
+    if len({h[1] for h in heads}) < k or len({t[1] for t in tails}) < k:
+        heads = [('sym', x) for x in TOKENS[:k]]
+        tails = [('sym', x) for x in STRINGS[:k]]
+    perm = draw(st.permutations(list(range(k))))
+    lead1, lead2 = ('sym', "'x'"), ('sym', '"*"')
+    wrap = draw(st.sampled_from(['none', 'none', 'star', 'opt', 'plus']))
+
+    def branch(lead, order):
+        alts = [('seq', [heads[i], tails[order[i]]]) for i in range(k)]
+        return ('seq', [lead, ('alt', alts)])
+    r = ('alt', [branch(lead1, list(range(k))), branch(lead2, list(perm))])
+    if wrap != 'none':
+        r = (wrap, r)
+    return r
+
+
+@st.composite
 def random_grammar(draw):
     n = draw(st.integers(2, 7))
     depth = draw(st.integers(1, 4))
     rules = [draw(_rhs(n, depth)) for _ in range(n)]
+    if draw(st.integers(0, 4)) == 0:
+        rules[draw(st.integers(0, n - 1))] = draw(_confusable(n))
     layout = draw(st.lists(st.integers(0, 5), min_size=8, max_size=8))
     return {'kind': 'random', 'rules': [to_json(r) for r in rules], 'layout': layout}
 
